@@ -102,7 +102,13 @@ func yieldHook(kind int, n int, p0, p1, p2, p3, p4, p5 uintptr) {
 	g.ops++
 	g.occ[s.id]++
 	h := mix64(g.seed ^ uint64(w.step)*0xbf58476d1ce4e5b9 ^ s.id ^ uint64(g.occ[s.id])<<48 ^ uint64(kind)<<40)
-	if int(h%1000) >= w.cfg.GatePermille {
+	pm := w.cfg.GatePermille
+	for _, b := range w.cfg.GateBoost {
+		if int(s.id%16) == b {
+			pm = w.cfg.GateBoostPermille
+		}
+	}
+	if int(h%1000) >= pm {
 		return
 	}
 	if w.isDead() {
